@@ -255,10 +255,10 @@ func extract(repo, leanDir string) {
 		// (2) keyed methods are pure delegations `shard(key).SameMethod(args…)`; (3) the multi-key paths of tgroup have the
 		// exact shape the model was written against (indices only from calKeyFn via calculateSortedMultiKeys).
 		multi := map[string]string{
-			"Locks":    "{ var ms = w.calculateSortedMultiKeys(keys) var ws = make([]*wrapLocker, 0, len(keys)) for _, ks := range ms { ws = append(ws, w.ls[ks.index].getWriteLocks(ks.ks)...) } for _, wr := range ws { wr.rwLocker.Lock() } }",
-			"RLocks":   "{ var ms = w.calculateSortedMultiKeys(keys) var ws = make([]*wrapLocker, 0, len(keys)) for _, ks := range ms { ws = append(ws, w.ls[ks.index].getReadLocks(ks.ks)...) } for _, wr := range ws { wr.rwLocker.RLock() } }",
-			"Unlocks":  "{ var m = w.calculateSortedMultiKeys(keys) for _, ks := range m { w.ls[ks.index].Unlocks(ks.ks) } }",
-			"RUnlocks": "{ var m = w.calculateSortedMultiKeys(keys) for _, ks := range m { w.ls[ks.index].RUnlocks(ks.ks) } }",
+			"Locks":                    "{ var ms = w.calculateSortedMultiKeys(keys) var ws = make([]*wrapLocker, 0, len(keys)) for _, ks := range ms { ws = append(ws, w.ls[ks.index].getWriteLocks(ks.ks)...) } for _, wr := range ws { wr.rwLocker.Lock() } }",
+			"RLocks":                   "{ var ms = w.calculateSortedMultiKeys(keys) var ws = make([]*wrapLocker, 0, len(keys)) for _, ks := range ms { ws = append(ws, w.ls[ks.index].getReadLocks(ks.ks)...) } for _, wr := range ws { wr.rwLocker.RLock() } }",
+			"Unlocks":                  "{ var m = w.calculateSortedMultiKeys(keys) for _, ks := range m { w.ls[ks.index].Unlocks(ks.ks) } }",
+			"RUnlocks":                 "{ var m = w.calculateSortedMultiKeys(keys) for _, ks := range m { w.ls[ks.index].RUnlocks(ks.ks) } }",
 			"calculateSortedMultiKeys": "{ var m = make(map[int][]T) for _, key := range keys { var i = w.calKeyFn(key) m[i] = append(m[i], key) } var ms = make([]multiKeyT[T], 0, len(m)) for i, ks := range m { ms = append(ms, multiKeyT[T]{index: i, ks: ks}) } slices.SortFunc[multiKeyT[T]](ms, func(a, b multiKeyT[T]) bool { return a.index < b.index }) return ms }",
 		}
 		for _, d := range cf.AST.Decls {
